@@ -64,6 +64,9 @@ def run_scenarios(ctx: Ctx, own: str, scenarios: List[dict], want_traces: bool =
 
 
 def run(ctx: Ctx) -> None:
+    # the operations documented as thread-safe, under every single pre-emption by the other thread (props/threadsfam.py, Trace_Threads.tla)
+    from props import threadsfam
+    threadsfam.run(ctx, 'C18')
     # the synchronous API from application threads, two blocking instances, real time (props/syncapi.py, Trace_SyncApi.tla)
     from props import syncapi
     syncapi.run(ctx, 'C18')
